@@ -64,7 +64,7 @@ def run_last_an(orb, q):
 
     orb.get_position = gp
     try:
-        with common.time_limit(20):
+        with common.time_limit(5):          # a normal call takes milliseconds
             res = orb.get_last_an_time(q)
         err = None
     except common.Timeout:
@@ -276,6 +276,7 @@ def run(ctx):
     # ---- last ascending node, all representations
     items, metas = [], []
     n_node = ctx.n(14, 150)
+    hangs = 0
     for ti in range(n_node):
         tle = tlegen.NOAA18 if ti == 0 else gen_tle(rng, drag_free=(ti % 2 == 0))
         try:
@@ -287,7 +288,10 @@ def run(ctx):
         t_query = ep + dt.timedelta(seconds=rng.uniform(-86400, 5 * 86400))
         t_query = t_query.replace(microsecond=rng.choice([0, rng.randrange(1000000)]))
         for name, q, unit in representations(t_query):
+            if hangs >= 6:
+                break                       # six inputs that never return are reported; do not wait for more
             res, err, calls = run_last_an(orb, q)
+            hangs += err == "Timeout"
             ctx.case(("node", ti, name), pub(tle, representation=name, query=t_query.isoformat(), result=str(res), calls=len(calls)) if ti < 1 else None)
             if err is not None:
                 ctx.violation("get_last_an_time did not return (%s)" % err,
@@ -329,21 +333,28 @@ def run(ctx):
             make_orb(tle)
         except Exception:
             continue
+        if hangs >= 6:
+            break
         try:
             orbit_number_checks(ctx, rng, tle, ti, floats)
             cache_checks(ctx, rng, tle, ti)
         except common.Timeout as e:
+            hangs += 1
             ctx.violation("get_orbit_number / get_equatorial_crossing_time did not return (%s)" % e,
                           {"signature": "C11:orbit:%d:hang" % ti, **pub(tle)})
     # a rev-0 element set: negative continuous numbers, truncation toward zero
     tle0 = gen_tle(rng, drag_free=True, rev=0)
     orb0 = make_orb(tle0)
-    for s in (-80000.0, -40000.0, -3000.0, -1.0, 4000.0):
-        t = orb0.tle.epoch + np.timedelta64(int(s * 1e6), "us")
-        nf, ni = orb0.get_orbit_number(t, as_float=True), orb0.get_orbit_number(t)
-        floats.append((nf, ni, pub(tle0, seconds_from_epoch=s, orbit=ni, as_float=repr(nf))))
-        if ni != int(nf):
-            ctx.violation("integer orbit number is not the truncated continuous value", {"signature": "C11:trunc:rev0:%.0f" % s, **floats[-1][2]})
+    try:
+        for s in (() if hangs >= 6 else (-80000.0, -40000.0, -3000.0, -1.0, 4000.0)):
+            t = orb0.tle.epoch + np.timedelta64(int(s * 1e6), "us")
+            with common.time_limit(30):
+                nf, ni = orb0.get_orbit_number(t, as_float=True), orb0.get_orbit_number(t)
+            floats.append((nf, ni, pub(tle0, seconds_from_epoch=s, orbit=ni, as_float=repr(nf))))
+            if ni != int(nf):
+                ctx.violation("integer orbit number is not the truncated continuous value", {"signature": "C11:trunc:rev0:%.0f" % s, **floats[-1][2]})
+    except common.Timeout as e:
+        ctx.violation("get_orbit_number did not return (%s)" % e, {"signature": "C11:orbit:rev0:hang", **pub(tle0)})
     model, out = coq_trunc([f for f, _, _ in floats])
     if model is None or len(model) != len(floats):
         ctx.corr_fail("M_NodeTime.trunc_flat evaluation in Coq", {"error": out[-600:]})
